@@ -114,6 +114,14 @@ def run_zone(arg):
         def get_modified_time(self):
             return self.mt
 
+    class Probe(JsonFileStore):
+        """The library's file store, except that a write is only counted (the file and its modified time stay)."""
+
+        writes = 0
+
+        def write(self, value):
+            self.writes += 1
+
     def decide(own_d, up_d, fr_d, depth=0):
         """depth: number of calls WITHOUT a store between the upstream source and the stored call (the
         upstream instant is handed down through them)."""
@@ -161,19 +169,19 @@ def run_zone(arg):
                     reg = uberjob.Registry()
                     src = reg.source(plan, JsonFileStore(pu))
                     a = plan.call(lambda x: x, src)
-                    so = JsonFileStore(po)
+                    so = Probe(po)
                     reg.add(a, so)
                     own_r = rep(mo, "naive")[1]
                     up_r = rep(mx, "naive")[1]
-                    phys, _ = uberjob.run(plan, registry=reg, dry_run=True, progress=None)
-                    rebuilt = any(getattr(getattr(nd, "fn", None), "__name__", "") == "write" for nd in phys.graph.nodes())
-                    events.append({"own": own_r, "up": up_r, "fr": NONE, "rebuilt": rebuilt})
+                    so.writes = 0
+                    uberjob.run(plan, registry=reg, progress=None, max_workers=1)
+                    events.append({"own": own_r, "up": up_r, "fr": NONE, "rebuilt": so.writes > 0})
                     for kx in ("naive", 0, 540):
                         fr_d, fr_r = rep(mx, kx)
                         os.utime(pu, (base0 - 86400, base0 - 86400))
-                        phys, _ = uberjob.run(plan, registry=reg, dry_run=True, progress=None, fresh_time=fr_d)
-                        rebuilt = any(getattr(getattr(nd, "fn", None), "__name__", "") == "write" for nd in phys.graph.nodes())
-                        events.append({"own": own_r, "up": NONE, "fr": fr_r, "rebuilt": rebuilt, "file": True})
+                        so.writes = 0
+                        uberjob.run(plan, registry=reg, progress=None, max_workers=1, fresh_time=fr_d)
+                        events.append({"own": own_r, "up": NONE, "fr": fr_r, "rebuilt": so.writes > 0, "file": True})
                         os.utime(pu, (base0 + mx * 60, base0 + mx * 60))
                     nfile += 4
     for e in events:
